@@ -1296,9 +1296,7 @@ func (l *Loop) decode(d *decoder) {
 	}
 	l.vertices = make([]Point, nvertices)
 	for i := range l.vertices {
-		l.vertices[i].X = d.readFloat64()
-		l.vertices[i].Y = d.readFloat64()
-		l.vertices[i].Z = d.readFloat64()
+		l.vertices[i] = d.readPoint()
 	}
 	l.index = NewShapeIndex()
 	l.originInside = d.readBool()
